@@ -185,7 +185,12 @@ def run(tier):
             raise Machinery('vacuity: labels never produced by the real rule functions on the shipped data: %s %s' % (lang, sorted(missing)))
     # end-to-end: behaviours of Depccg.tla replayed through filter -> real parser -> every format -> reader
     from .. import pipeline
-    e2e_rej, e2e_cov = pipeline.run_pipelines(PROP, tier, rng)
+    from ..common import run_forked, Hang
+    try:
+        e2e_rej, e2e_cov = run_forked(pipeline.run_pipelines, 1200 if tier == 'quick' else 14400, PROP, tier, random.Random(seed() + 19))
+    except Hang as e:
+        e2e_rej, e2e_cov = [(PROP + '.pipeline_did_not_terminate', {'lang': '?', 'pipeline': {'hang': str(e)}, 'what': 'end-to-end pipeline replay'})], \
+            {'states': 0, 'transitions': 0, 'parser_events': 0, 'render_and_read_events': 0, 'filter_events': 0, 'note': 'pipeline replay did not terminate'}
     rejects, stats = validate('traces/RenderTrace.tla', events, 'c19', per_shard=400)
     demo = rf.render_binding_demo(events, 'c19')
     viols = []
